@@ -668,6 +668,9 @@ _MOD360 = z3.Function("mod360", z3.RealSort(), z3.RealSort())
 class SReal(SNum):
     __slots__ = ()
 
+    def __hash__(self):
+        raise ShimUnsupported("hash() of a symbolic real (set / dict key)")
+
     def __float__(self):
         raise ShimUnsupported("float() of a symbolic real")
 
